@@ -31,7 +31,7 @@ MkItems(shs) == [k \in 1..Len(shs) |-> MkItem(shs[k], k)]
 OptSpace == [rg : Ranges, fill : FillSet, lane : LaneSet, hdr : HdrSet, e : ESet, sum : SumOpts, filt : FiltSet,
              seg : SegOpts]
 MkOpts(x) == [rs |-> x.rg[1], re |-> x.rg[2], fill |-> x.fill, lane |-> x.lane, hdr |-> x.hdr, e |-> x.e,
-              sum |-> x.sum, filt |-> x.filt, seg |-> x.seg]
+              sum |-> x.sum, fops |-> x.filt, seg |-> x.seg]
 FileSplits(items) == IF Offsets = {} THEN {<<[off |-> 0, items |-> items]>>}
                      ELSE {<<[off |-> 0, items |-> SubSeq(items, 1, k)],
                              [off |-> d, items |-> SubSeq(items, k + 1, Len(items))]>> : k \in 0..Len(items), d \in Offsets}
@@ -115,7 +115,8 @@ H_L2       == {2}
 E_None     == {-1}
 E_Mixed    == {-1, 66051}            \* 66051 = $010203
 F_None     == {<<>>}
-F_One      == {<<81>>}
-F_Mixed    == {<<>>, <<81>>, <<97>>, <<129>>}
-F_Mixed5   == {<<>>, <<81>>, <<97>>, <<81, 97>>, <<129>>}
+F_One      == {<<FA(<<81>>)>>}
+F_Mixed    == {<<>>, <<FA(<<81>>)>>, <<FA(<<97>>)>>, <<FA(<<129>>)>>, <<FA(<<81, 97>>), FC(<<81>>)>>,
+               <<FEA(<<97, 81>>), FC(<<97>>)>>}
+F_Mixed5   == F_Mixed \cup {<<FA(<<81, 97>>)>>, <<FA(<<81, 97, 129>>), FC(<<81>>), FA(<<81>>)>>}
 =============================================================================
